@@ -25,7 +25,7 @@ ASSUMPTIONS = [
 REQUIRED_CLASSES = ["nontrivial", "degenerate_box", "box_on_split_line", "touching_only_hit", "empty_index",
                     "single_box", "hatch", "plus", "tiles", "nested", "mirror", "dups", "continuous",
                     "point_query", "segment_query", "enclosing_query", "disjoint_query", "outer_edge_query",
-                    "empty_expected", "geometric", "huge_coordinates", "unusual_ids"]
+                    "empty_expected", "geometric", "huge_coordinates", "unusual_ids", "geometric_row"]
 QUICK_SHARDS = 4
 LINE_BUDGET = 3_000_000
 
@@ -196,11 +196,22 @@ def layouts(draw):
         # so the tree gets deep (dozens of levels) although the collection is modest
         n = draw(st.sampled_from([40, 100, 200, 300, 300]))
         ratio = draw(st.sampled_from([0.5, 0.5, 0.6, 0.75]))
-        anchor = draw(st.sampled_from(["diagonal", "diagonal", "staircase"]))
+        anchor = draw(st.sampled_from(["diagonal", "diagonal", "staircase", "row", "row"]))
+        if anchor == "row":
+            # a row of marks that all straddle one horizontal (or vertical) line, spaced geometrically - the tick
+            # marks of a logarithmic axis: every box lies on both sides of the split line of every node
+            n = draw(st.sampled_from([24, 40, 60, 80]))
+            ratio = draw(st.sampled_from([0.5, 0.6]))
+            half = draw(st.sampled_from([0.0, 0.0, 1.0]))
+            vertical = draw(st.booleans())
+            tags.add("geometric_row")
         size = 1024.0
         for k in range(n):
             nxt = size * ratio
-            if anchor == "diagonal":
+            if anchor == "row":
+                box = [size, -half, size + (size - nxt) * draw(st.sampled_from([0.0, 0.25])), half]
+                boxes.append([box[1], box[0], box[3], box[2]] if vertical else box)
+            elif anchor == "diagonal":
                 boxes.append([nxt, nxt, size, size])          # a spiral drawn towards the origin
             else:
                 boxes.append([nxt, 0.0, size, nxt])           # steps of a staircase along the x axis
